@@ -63,7 +63,7 @@ theorem T_C06_blocks (decl : Decl) :
       ∃ vs, (declVA decl).2[k]? = some vs ∧
         (assembleDecl decl).blocks[k]? =
           some ⟨vs.map (·.index), o.zone, o.counts, o.gkind, o.grading, "// " ++ toString k⟩ := by
-  obtain ⟨_, _, k3, _, _⟩ := assemble_winv closeCorner (C05.slavePatches decl.mergedBefore)
+  obtain ⟨_, _, k3, _, _⟩ := assemble_winv closeCorner (C05.slavePatches (declMerged decl))
     ((declOps decl).map OpDecl.toC05) (vl := {}) winv_empty
   have hlen : (declVA decl).2.length = (declOps decl).length := by
     unfold declVA; rw [k3, List.length_map]
@@ -89,7 +89,7 @@ theorem T_C06_vertices (decl : Decl) :
     ∀ (i : Nat) (v : C05.Vertex Corner), (declVA decl).1.vertices[i]? = some v →
       v.index = i ∧
       (assembleDecl decl).vertices[i]? = some ⟨v.pos.coords, v.pos.proj, "// " ++ toString i⟩ := by
-  obtain ⟨k1, _⟩ := assemble_winv closeCorner (C05.slavePatches decl.mergedBefore)
+  obtain ⟨k1, _⟩ := assemble_winv closeCorner (C05.slavePatches (declMerged decl))
     ((declOps decl).map OpDecl.toC05) (vl := {}) winv_empty
   constructor
   · simp [assembleDecl, dictOf]
@@ -114,12 +114,12 @@ theorem T_C06_hex_corners {S : Corner → Prop} (hc : C05.CloseEquivOn closeCorn
     exact hS o' ho' q hq
   have ho' : ((declOps decl).map OpDecl.toC05)[k]? = some o.toC05 := by rw [List.getElem?_map, ho]; rfl
   have hp' : o.toC05.pts[c]? = some p := hp
-  obtain ⟨v, hv⟩ := C05.vertexAt_total closeCorner hc (C05.slavePatches decl.mergedBefore) _ hS' k c _ p ho' hp'
-  have hpos := C05.vertexAt_position closeCorner hc (C05.slavePatches decl.mergedBefore) _ hS' k c _ p v ho' hp' hv
+  obtain ⟨v, hv⟩ := C05.vertexAt_total closeCorner hc (C05.slavePatches (declMerged decl)) _ hS' k c _ p ho' hp'
+  have hpos := C05.vertexAt_position closeCorner hc (C05.slavePatches (declMerged decl)) _ hS' k c _ p v ho' hp' hv
   refine ⟨v, hv, hpos, ?_⟩
-  obtain ⟨hi, _⟩ := C05.assemble_spec closeCorner hc (C05.slavePatches decl.mergedBefore) _
+  obtain ⟨hi, _⟩ := C05.assemble_spec closeCorner hc (C05.slavePatches (declMerged decl)) _
     (C05.inv_empty closeCorner S) hS'
-  obtain ⟨d, hd, hdv, _⟩ := C05.placed_of_vertexAt closeCorner hc (C05.slavePatches decl.mergedBefore) _ hS' ho' hp' hv
+  obtain ⟨d, hd, hdv, _⟩ := C05.placed_of_vertexAt closeCorner hc (C05.slavePatches (declMerged decl)) _ hS' ho' hp' hv
   obtain ⟨j, hj⟩ := List.mem_iff_getElem?.mp hd
   have hidx := hi.dense j d hj
   have : (declVA decl).1.vertices[j]? = some d.vertex := by
@@ -205,6 +205,27 @@ theorem T_C06_geometry_sound (decl : Decl) :
     (fun g hg => List.mem_append_left _ (List.mem_append_left _ hg))
     (fun g hg => List.mem_append_left _ (List.mem_append_right _ hg))
     (fun g hg => List.mem_append_right _ hg)
+
+/-- **T_C06_geometry_complete.** If all declared geometry names (user's and those brought by the entities
+    of the depot) are different, the geometry section is exactly the list of declared entries, each with
+    its own properties, in declaration order — also after re-assembly.  (Two shapes that bring the
+    *same* name with different spheres violate the premise: one definition overwrites the other.) -/
+theorem T_C06_geometry_complete (decl : Decl) (h : ((declGeomAll decl).map (·.name)).Nodup) :
+    (assembleDecl decl).geometry = declGeomAll decl := declGeometry_nodup decl h
+
+/-- **T_C06_reassembly.** Clearing and assembling again (`clear()` + `assemble()`, `backport()`) before
+    writing gives the same dictionary as the first assembly when nothing was merged in between and
+    the geometry names are distinct: no list keeps anything of the first assembly. -/
+theorem T_C06_reassembly (decl : Decl) (hm : decl.mergedAfter = [])
+    (h : ((declGeomAll decl).map (·.name)).Nodup) :
+    assembleDecl { decl with reassembled := true } = assembleDecl { decl with reassembled := false } := by
+  have g1 := declGeometry_nodup { decl with reassembled := true } h
+  have g2 := declGeometry_nodup { decl with reassembled := false } h
+  have hM : declMerged { decl with reassembled := true } = declMerged { decl with reassembled := false } := by
+    simp [declMerged, hm]
+  unfold assembleDecl dictOf declVA
+  simp only [hM, g1, g2]
+  rfl
 
 /-- an operation projected to a label that nothing defines (the copied sphere of the unrepaired
     library: the operations keep the label of the original, the geometry is named after the copy) -/
